@@ -14,7 +14,7 @@ use vpmodel::spec::ChainSpec;
 pub const DEF: PropDef = PropDef {
     id: "C12",
     level: "exploration",
-    rule: "chains on Namecoin/Dogecoin mixing block versions below, one below, equal to, one above and far above the coin's AuxPoW threshold (and high-bit versions), each block at or above the threshold carrying a generated AuxPoW section (parent coinbase in legacy or BIP144 form with any shape, branch lengths 0..40 incl. 32, arbitrary masks); the six other coins with the same versions and no section as negative control. Oracle: csvdump == reference model (block hash, tx rows; blocksize = stored prefix including the section) with --verify; plus the metamorphic relation: the same logical blocks stored without sections under a coin without AuxPoW give identical blocks (except blocksize), transactions and tx_in files and identical tx_out rows except the address column. Non-trivial = a block with a section whose two branch lengths differ, or a block exactly at threshold or threshold-1; distinct by case hash.",
+    rule: "chains on Namecoin/Dogecoin mixing block versions below, one below, equal to, one above and far above the coin's AuxPoW threshold (and high-bit versions), each block at or above the threshold carrying a generated AuxPoW section (parent coinbase in legacy or BIP144 form with any shape, branch lengths 0..40 incl. 32, arbitrary masks; plus two fixed blocks whose transactions total just under 4 000 000 bytes while the stored record with its section exceeds that); the six other coins with the same versions and no section as negative control. Oracle: csvdump == reference model (block hash, tx rows; blocksize = stored prefix including the section) with --verify; plus the metamorphic relation: the same logical blocks stored without sections under a coin without AuxPoW give identical blocks (except blocksize), transactions and tx_in files and identical tx_out rows except the address column. Non-trivial = a block with a section whose two branch lengths differ, or a block exactly at threshold or threshold-1; distinct by case hash.",
     assumptions: &["the AuxPoW rule is the statement's: section present iff version >= threshold (0x10101 namecoin, 0x620102 dogecoin) compared as unsigned"],
     run,
     replay,
@@ -128,11 +128,25 @@ fn run(eng: &Engine, a: &Args) {
     let n = if a.tier == Tier::Quick { 300 } else { 3000 };
     let tier = a.tier;
     eng.explore("auxpow-chains", scaled(n, a), move || strategy(tier), check);
+    // fixed cases: a block whose transactions stay just below 4 000 000 bytes while the stored record
+    // (with its AuxPoW section: 1000-entry branches) exceeds it
+    let mut big = Vec::new();
+    for coin in [Coin::Dogecoin, Coin::Namecoin] {
+        let th = coin.auxpow_threshold().unwrap();
+        let scripts: Vec<Vec<u8>> = (0..40usize).map(|i| { let mut s = vec![0x51u8; 99_640]; s[1] = i as u8; s }).collect();
+        let mut chain = vpmodel::spec::chain_from_scripts(coin, &scripts, &[1], 1, 40, 0, 1_400_000_000);
+        for b in chain.blocks.iter_mut() {
+            b.version = th + 1;
+            b.auxpow = Some(vpmodel::spec::AuxPowSpec { coinbase: b.coinbase.clone(), seed: 7, cb_branch_len: 1000, cb_mask: 5, chain_branch_len: 1000, chain_mask: 9 });
+        }
+        big.push(Case { chain, verify: false });
+    }
+    eng.enumerate("near-4MB-block-with-section", big, check);
 }
 
 fn replay(part: &str, case: serde_json::Value) -> Option<Verdict> {
     match part {
-        "auxpow-chains" => Some(check(&serde_json::from_value(case).ok()?)),
+        "auxpow-chains" | "near-4MB-block-with-section" => Some(check(&serde_json::from_value(case).ok()?)),
         _ => None,
     }
 }
